@@ -129,15 +129,17 @@ Definition all_fops (c : case) : list fop := flat_map (fun r => map snd (rr_fops
 Definition s0f (c : case) : store := fold_left (fun s f => fapply f s) (all_fops c) (c_s0 c).
 Definition touched (c : case) (k : key) : bool :=
   existsb (fun f => match f with FPut k' _ => seqb k' k | FDel k' => covers k' k end) (all_fops c).
-Definition diff_ok_f (c : case) (k : key) : bool :=
-  let sf := s0f c in let s1 := c_s1 c in
+(** ([sf] = [s0f c], computed once; [just] is a thunk: evaluation is call-by-value) *)
+Definition diff_ok_f (c : case) (sf : store) (k : key) : bool :=
+  let s1 := c_s1 c in
   let t := touched c k in
   let base := if t then sf else c_s0 c in
-  let just := existsb (fun r => justified (rr_opts r) (rr_t1 r) sf k ||
-                                (negb t && justified (rr_opts r) (rr_t1 r) (c_s0 c) k)) (c_runs c) in
+  let just := fun _ : unit =>
+    existsb (fun r => if justified (rr_opts r) (rr_t1 r) sf k then true
+                      else if t then false else justified (rr_opts r) (rr_t1 r) (c_s0 c) k) (c_runs c) in
   (if file_eqb (file base k) (file s1 k) then true else
    match file s1 k with
-   | None => just
+   | None => just tt
    | Some (v, cl) =>
        seqb k spec_last_clean && (v =? -1) &&
        match as_clean cl with
@@ -154,7 +156,7 @@ Definition diff_ok_f (c : case) (k : key) : bool :=
   | Some Dir, None =>
       if site_folderb k && forallb (fun en => negb (under k (fst en))) s1 &&
          existsb (fun r => do_certs (rr_opts r)) (c_runs c) then true
-      else just
+      else just tt
   | _, _ => true
   end.
 
@@ -187,7 +189,7 @@ Definition spec_ok (c : case) : bool :=
   under_lock None (c_trace c) &&
   match all_fops c with
   | [] => forallb (diff_ok c) (map fst (c_s0 c) ++ map fst (c_s1 c))
-  | _ => forallb (diff_ok_f c) (map fst (c_s0 c) ++ map fst (s0f c) ++ map fst (c_s1 c))
+  | _ => let sf := s0f c in forallb (diff_ok_f c sf) (map fst (c_s0 c) ++ map fst sf ++ map fst (c_s1 c))
   end &&
   runs_ok c (c_runs c) (rec0 (c_s0 c)).
 
@@ -212,6 +214,16 @@ Fixpoint unpack (n : nat) (b : list bool) : str :=
 Definition get_pstr : dec str :=
   n <- get_nat ;; zs <- get_items get_z ((n + 6) / 7) ;;
   ret (firstn n (flat_map (fun z => unpack 7 (match z with Zpos p => pos_bits p | _ => [] end)) zs)).
+(** the key table: the distinct path components, then every key as the numbers of its components *)
+Fixpoint join_sl (l : list str) : str :=
+  match l with
+  | [] => []
+  | [x] => x
+  | x :: r => x ++ c_sl :: join_sl r
+  end.
+Definition get_keytbl : dec (list str) :=
+  comps <- get_list get_pstr ;; ks <- get_list (get_list get_nat) ;;
+  ret (map (fun ix => join_sl (map (fun i => nth i comps []) ix)) ks).
 Definition get_key (tbl : list str) : dec key := i <- get_nat ;; ret (nth i tbl []).
 Definition get_cls : dec cls :=
   a <- get_opt get_z ;; b <- get_opt get_z ;; c <- get_opt (get_pair get_z get_pstr) ;; ret (Cls a b c).
@@ -223,8 +235,23 @@ Definition get_node (vals : list (bool * cls)) : dec node :=
   | Some (fresh, c) => ret (File (if fresh then -1 else v) c)
   | None => (fun _ => None)
   end.
+(** node from its code: 0 = directory, v + 2 = value number v of the table *)
+Definition node_of (vals : list (bool * cls)) (code : Z) : option node :=
+  if code =? 0 then Some Dir else
+  match nth_error vals (Z.to_nat (code - 2)) with
+  | Some (fresh, c) => Some (File (if fresh then -1 else code - 2) c)
+  | None => None
+  end.
+(** store entry = key index * 100000 + node code *)
+Definition get_entry (tbl : list str) (vals : list (bool * cls)) : dec (key * node) :=
+  p <- get_z ;;
+  if (p <? 0) || (p mod 100000 =? 1) then (fun _ => None) else
+  match node_of vals (p mod 100000) with
+  | Some n => ret (nth (Z.to_nat (p / 100000)) tbl [], n)
+  | None => (fun _ => None)
+  end.
 Definition get_store (tbl : list str) (vals : list (bool * cls)) : dec store :=
-  get_list (get_pair (get_key tbl) (get_node vals)).
+  get_list (get_entry tbl vals).
 Definition get_opts : dec opts :=
   i <- get_z ;; a <- get_bool ;; b <- get_bool ;; g <- get_z ;; n <- get_pstr ;; ret (Opts i a b g n).
 Definition get_run : dec runrec :=
@@ -243,16 +270,17 @@ Definition opk_of (n : Z) : option opk :=
   | 0 => Some KLock | 1 => Some KUnlock | 2 => Some KLoad | 3 => Some KList
   | 4 => Some KStat | 5 => Some KDelete | 6 => Some KStore | _ => None
   end.
-(** event = (tid * 16 + kind * 2 + ok), key index *)
+(** event = (tid * 16 + kind * 2 + ok) * 100000 + key index *)
 Definition get_tev (tbl : list str) : dec tev :=
-  p <- get_z ;; ky <- get_key tbl ;;
-  if p <? 0 then (fun _ => None) else
+  q <- get_z ;;
+  let p := q / 100000 in let ky := nth (Z.to_nat (q mod 100000)) tbl [] in
+  if q <? 0 then (fun _ => None) else
   match opk_of ((p / 2) mod 8) with
   | Some op => ret (TEv (Z.to_nat (p / 16)) (Ev op ky (negb (p mod 2 =? 0))))
   | None => (fun _ => None)
   end.
 Definition get_case : dec case :=
-  tbl <- get_list get_pstr ;; vals <- get_list get_val ;; l <- get_bool ;;
+  tbl <- get_keytbl ;; vals <- get_list get_val ;; l <- get_bool ;;
   s0 <- get_store tbl vals ;; rs <- get_list (get_run_f tbl vals) ;;
   tr <- get_list (get_tev tbl) ;; s1 <- get_store tbl vals ;; ret (Case l s0 rs tr s1).
 
@@ -280,7 +308,7 @@ Definition explain_line (l : list Z) : list Z :=
       [-2; if under_lock None (c_trace c) then 1 else 0;
        if match all_fops c with
           | [] => forallb (diff_ok c) (map fst (c_s0 c) ++ map fst (c_s1 c))
-          | _ => forallb (diff_ok_f c) (map fst (c_s0 c) ++ map fst (s0f c) ++ map fst (c_s1 c))
+          | _ => let sf := s0f c in forallb (diff_ok_f c sf) (map fst (c_s0 c) ++ map fst sf ++ map fst (c_s1 c))
           end then 1 else 0;
        if runs_ok c (c_runs c) (rec0 (c_s0 c)) then 1 else 0]
   | None => []
